@@ -197,6 +197,10 @@ class ShapeSystem(System):
         tail = gen.mk().replace("MK", "TAILMK")
         marks.append((tail, len(lines) + 1, "paragraph", None))
         lines = lines + ["", tail + " tail paragraph"]
+        # ... and a warning raised by the main file after the block (its prefix must name the main file and its own line)
+        twarn = gen.mk().lower().replace("mk", "tailwarn")
+        marks.append((twarn, len(lines) + 1, "warn", None))
+        lines = lines + ["", "{" + twarn + "}`x` after"]
         return ok, lines, marks, files
 
     def run(self, case):
